@@ -257,7 +257,7 @@ def pass_position(u: Unit):
                 ok_shape = shape in ("(detector.geometry.row,detector.geometry.col)", "detector.geometry.shape", "detector.pixel.shape")
                 u.static(f"models.pass_shape[{fn.name}]", ok_shape, fn.qualname, f"{fn.name}: shape argument denotes {shape!r}", witness={"function": fn.name, "shape": shape},
                          replay=lambda w, fnname=fn.name, mod=mi.name: position_replay(mod, fnname))
-    u.static("models.pass_position.cover", n_calls >= 2, "", f"{n_calls} call sites of load_cropped_and_aligned_image found in pyxel/models")
+    u.guard("models.pass_position.cover", n_calls >= 2, "", f"{n_calls} call sites of load_cropped_and_aligned_image found in pyxel/models")
 
 
 def position_replay(mod, fnname):
